@@ -1772,9 +1772,12 @@ package gmars
 //@ extern iface:ReportingSimulator.CoreSize
 //@   modifies nothing
 //@   ensures result >= 3
+// the simulator behind the interface is this package's reportSim: an index below its warrior count names a warrior
+// (found by running the contracts against the real code: without the bound, a spawn report with a bad index is an
+// admitted input on which Report dereferences nil)
 //@ extern iface:ReportingSimulator.GetWarrior
 //@   modifies nothing
-//@   ensures result != nil
+//@   ensures 0 <= wi && wi < as(self, reportSim).warriorCount ==> result != nil
 //@ extern iface:Warrior.Length
 //@   modifies nothing
 //@   ensures result >= 0
@@ -1813,6 +1816,7 @@ package gmars
 //@ func (*StateRecorder).Report
 //@   panics [C15]
 //@   requires recInv(r) && (report.Type >= WarriorSpawn ==> report.Address < r.coresize)
+//@   requires report.Type == WarriorSpawn ==> 0 <= report.WarriorIndex && report.WarriorIndex < as(r.sim, reportSim).warriorCount
 //@   modifies r.color[*], r.state[*]
 //@   ensures [C15] recInv(r)
 // every address shows the kind and owner of the last operation that touched it; a reset empties everything
